@@ -56,7 +56,12 @@ ServeAll(acc) ==
         hf == CHOOSE h \in held : \A y \in cand \cup held : S.conn[h].blk.since <= S.conn[y].blk.since
     IN  IF heldFirst THEN [acc EXCEPT !.S.conn[hf].blk.tok = TRUE]     \* it now holds the wake-up token
         ELSE IF cand = {} THEN acc
-        ELSE LET x == CHOOSE x \in cand : \A y \in cand : S.conn[x].blk.since <= S.conn[y].blk.since
+        \* (acc.rev: the reading in which, of several waiters woken at once, the LATEST retries first - see FinishCmd)
+        \* (only the waiters that actually hold a wake-up can race: the first n of the queue, n = wake-ups still to hand out)
+        ELSE LET nw == FoldFunctionOnSet(+, 0, acc.wake, DOMAIN acc.wake)
+                 woken == {w \in cand : Cardinality({y \in cand : S.conn[y].blk.since < S.conn[w].blk.since}) < nw}
+                 x == IF acc.rev /\ woken # {} THEN CHOOSE w \in woken : \A y \in woken : S.conn[w].blk.since >= S.conn[y].blk.since
+                      ELSE CHOOSE w \in cand : \A y \in cand : S.conn[w].blk.since <= S.conn[y].blk.since
                  res == Attempt(S, x)
                  \* a client that is to be held at after_wake is woken but not served: it parks, the element stays
                  hold == S.conn[x].gate = "after_wake"
@@ -69,7 +74,7 @@ ServeAll(acc) ==
                                 dst == IF ~hold /\ S.conn[x].blk.nm \in {"BLMOVE", "BRPOPLPUSH"} /\ res.r.t = "bulk" THEN {S.conn[x].blk.a[2]} ELSE {}
                             IN  [k \in DOMAIN used \cup dst |-> (IF k \in DOMAIN used THEN used[k] ELSE 0) + (IF k \in dst THEN 1 ELSE 0)]
              IN  IF hold THEN [acc EXCEPT !.S = S2]        \* (the model serves nobody else from this push, see MC_block)
-                 ELSE ServeAll([S |-> S2, wake |-> wk, all |-> acc.all,
+                 ELSE ServeAll([S |-> S2, wake |-> wk, all |-> acc.all, rev |-> acc.rev,
                                 deferred |-> IF S.conn[x].closed THEN acc.deferred ELSE Append(acc.deferred, [c |-> x, r |-> res.r]),
                                 dv |-> acc.dv \cup res.dv \cup (IF S.conn[x].closed THEN {"D_CLOSED_BLOCKED_CLIENT_STILL_CONSUMES"} ELSE {})])
 
@@ -85,20 +90,26 @@ EmuWakeOld(nm, a, r) ==
       [] nm \in {"LMOVE", "RPOPLPUSH", "BLMOVE", "BRPOPLPUSH"} /\ Len(a) >= 2 /\ r.t = "bulk" -> (a[2] :> 1)
       [] OTHER -> <<>>
 Finish(S0, S, r, dv, deferred, nm) ==
-    LET sv == ServeAll([S |-> S, deferred |-> deferred, dv |-> dv, wake |-> <<>>, all |-> TRUE])
+    LET sv == ServeAll([S |-> S, deferred |-> deferred, dv |-> dv, wake |-> <<>>, all |-> TRUE, rev |-> FALSE])
     IN  BRes(Flag(S0, sv.S, nm), r, sv.dv, sv.deferred)
 \* as Finish, for a command with arguments a and reply r.  Ideal: every waiter that can be served is served, longest
 \* waiter first.  The emulator hands out one wake-up per new element to the head of the key's queue: a woken waiter
 \* that cannot take the element (its destination is not a list) does not pass the wake-up on, and one wake-up is
 \* all a waiter gets even if it could take more - where that differs from the ideal outcome the step is tagged.
 FinishCmd(S0, S, r, dv, nm, a) ==
-    LET ideal == ServeAll([S |-> S, deferred |-> <<>>, dv |-> dv, wake |-> <<>>, all |-> TRUE])
+    LET ideal == ServeAll([S |-> S, deferred |-> <<>>, dv |-> dv, wake |-> <<>>, all |-> TRUE, rev |-> FALSE])
         old == On("D_ONLY_PUSH_COMMANDS_WAKE_BLOCKED_CLIENTS")
-        emu == ServeAll([S |-> S, deferred |-> <<>>, dv |-> dv, wake |-> IF old THEN EmuWakeOld(nm, a, r) ELSE EmuWake(S0, S), all |-> FALSE])
+        wk == IF old THEN EmuWakeOld(nm, a, r) ELSE EmuWake(S0, S)
+        emu == ServeAll([S |-> S, deferred |-> <<>>, dv |-> dv, wake |-> wk, all |-> FALSE, rev |-> FALSE])
+        \* several waiters woken by one command retry in the order the Go scheduler runs them: the other order
+        emuR == ServeAll([S |-> S, deferred |-> <<>>, dv |-> dv, wake |-> wk, all |-> FALSE, rev |-> TRUE])
         dev == IF old THEN "D_ONLY_PUSH_COMMANDS_WAKE_BLOCKED_CLIENTS" ELSE "D_ONE_WAKEUP_PER_ELEMENT_NOT_PASSED_ON"
-        useEmu == On(dev) /\ (emu.S # ideal.S \/ emu.deferred # ideal.deferred)
-        sv == IF useEmu THEN emu ELSE ideal
-    IN  BRes(Flag(S0, sv.S, nm), r, sv.dv \cup (IF useEmu THEN {dev} ELSE {}), sv.deferred)
+        differs(e) == e.S # ideal.S \/ e.deferred # ideal.deferred
+        useEmu == On(dev) /\ differs(emu)
+        useRace == ~useEmu /\ On("D_WOKEN_WAITERS_RETRY_IN_ANY_ORDER") /\ differs(emuR)
+        sv == IF useEmu THEN emu ELSE IF useRace THEN emuR ELSE ideal
+    IN  BRes(Flag(S0, sv.S, nm), r,
+             sv.dv \cup (IF useEmu THEN {dev} ELSE IF useRace THEN {"D_WOKEN_WAITERS_RETRY_IN_ANY_ORDER"} ELSE {}), sv.deferred)
 
 \* the reply that ends a block without an element
 EndReply(mode) == IF mode = "error" THEN RErr("UNBLOCKED") ELSE RNil
